@@ -254,6 +254,17 @@ void MEDDLY::inter_mt::_compute(int L, unsigned in,
         }
     }
 
+    if (arg1F->isTerminalNode(A) && arg2F->isTerminalNode(B)) {
+        //
+        // Both are terminal one, neither fully reduced, and L!=0:
+        // both are the identity pattern, possibly in different
+        // forests (so A==B cannot be used). I and I = I.
+        //
+        terminal tt(true, resF->getTerminalType());
+        C = resF->makeIdentitiesTo(tt.getHandle(), 0, L, in);
+        return;
+    }
+
     if ((A == B) && (arg1F==arg2F)) {
         // A and A = A
         edge_value dummy;
